@@ -678,6 +678,9 @@ def _run_program(case, ctx):
     if nontrivial:
         ctx.distinct("nontrivial", [sig, sorted(h["kind"] for h in case["hist"])])
 
+    # programs with scan / cond / rejection samplers compile on every eager run
+    cheap = not P.has_compiled_control_flow(spec)
+    thorough = ctx.tier == "thorough"
     del core.handler_stack[:]
     f_long = P.build(spec)
     sf_held = seed(f_long)
@@ -726,29 +729,31 @@ def _run_program(case, ctx):
     e1 = _eval(ctx, sf_held, key0, a, kw)
     if _compare_repeat(ctx, case, e0, e1, "held-seed(f)", "immediate"):
         _counter_must_rest(ctx, case, e1, "immediate repeat of held seed(f)")
-    e1b = _eval(ctx, seed(f_long), key0, a, kw)
-    if _compare_repeat(ctx, case, e0, e1b, "new-seed-wrapper", "immediate"):
-        _counter_must_rest(ctx, case, e1b, "immediate repeat through a new seed(f) wrapper")
+    if cheap or thorough:
+        e1b = _eval(ctx, seed(f_long), key0, a, kw)
+        if _compare_repeat(ctx, case, e0, e1b, "new-seed-wrapper", "immediate"):
+            _counter_must_rest(ctx, case, e1b, "immediate repeat through a new seed(f) wrapper")
     e1c = _eval(ctx, seed(P.build(spec)), key0, a, kw)
     ctx.count("fresh_closure_checks")
     _compare_repeat(ctx, case, e0, e1c, "fresh-closure", "immediate")
 
     # ---------------- phase B: histories
-    for h in case["hist"]:
+    for hi, h in enumerate(case["hist"]):
         label = _run_history(ctx, case, h, f_long, sf_held)
-        if h["kind"] == "fault":
-            label = "fault"
-        eh = _eval(ctx, sf_held, key0, a, kw)
-        if _compare_repeat(ctx, case, e0, eh, "held-seed(f)", label):
-            _counter_must_rest(ctx, case, eh, f"repeat of held seed(f) after history {label}")
-        ef = _eval(ctx, seed(P.build(spec)), key0, a, kw)
-        ctx.count("fresh_closure_checks")
-        _compare_repeat(ctx, case, e0, ef, "fresh-closure", label)
+        # programs that compile on every eager run alternate between the two repeat styles (quick tier)
+        both = cheap or thorough
+        if both or (hi + case.get("index", 0)) % 2 == 0:
+            eh = _eval(ctx, sf_held, key0, a, kw)
+            if _compare_repeat(ctx, case, e0, eh, "held-seed(f)", label):
+                _counter_must_rest(ctx, case, eh, f"repeat of held seed(f) after history {label}")
+        if both or (hi + case.get("index", 0)) % 2 == 1:
+            ef = _eval(ctx, seed(P.build(spec)), key0, a, kw)
+            ctx.count("fresh_closure_checks")
+            _compare_repeat(ctx, case, e0, ef, "fresh-closure", label)
 
     # ---------------- phase C: transforms
     jevs = jit_all()
-    cheap = not P.has_compiled_control_flow(spec)
-    n_eager = NKEYS if cheap else 3
+    n_eager = NKEYS if cheap else (3 if thorough else 2)
     eag = {}
 
     def eager(j):
@@ -786,7 +791,11 @@ def _run_program(case, ctx):
         return ev
 
     vf = jax.vmap(lambda k: sf_held(k, *a, **kw))
-    ev_v = batched("vmap", vf)
+    if cheap or thorough or case.get("index", 0) % 2 == 0:
+        ev_v = batched("vmap", vf)
+    else:
+        ev_v = None  # op-by-op batched evaluation of a large program: every other one in the quick tier
+        ctx.count("eager_vmap_skipped_for_cost")
     ev_jv = batched("jit(vmap)", jax.jit(vf))
     ref = jevs
     ref_name = "jit"
